@@ -1,10 +1,10 @@
-\* composite shape: one client, 3 concurrent child tasks (streams), depth 2
+\* composite shape: one client, 3 concurrent child tasks (streams), depth 2, 4 wire requests
 SPECIFICATION Spec
 CONSTANTS
   Tasks <- T4
   Roots <- R1
   MaxCtx = 4
-  MaxWire = 3
+  MaxWire = 4
   MaxDepth = 2
   MaxKids = 3
   MaxChunks = 0
